@@ -154,9 +154,9 @@ def r15(body):
     return _sub(r"\bfor\s+_\s+in\b", lambda m: "for vx_i in", body)
 
 
-@rule("R17", "for P in E.iter() -> for P in vx_it: E.iter()   [Verus-only label naming the ghost iterator; no executable change]")
+@rule("R17", "for P in E.iter() / E.chars() / E.take(N) -> for P in vx_it: E.iter()   [Verus-only label naming the ghost iterator; no executable change]")
 def r17(body):
-    return _sub(r"\bfor\s+(\w+)\s+in\s+(?!vx_it)([\w\.]+\.(?:iter|chars)\(\))", lambda m: "for %s in vx_it: %s" % (m.group(1), m.group(2)), body)
+    return _sub(r"\bfor\s+(\w+)\s+in\s+(?!vx_it)([\w\.]+\.(?:(?:iter|chars)\(\)|take\(\w+\)))", lambda m: "for %s in vx_it: %s" % (m.group(1), m.group(2)), body)
 
 
 @rule("R4", "X.sort(); X.dedup(); -> vx_sort_dedup(&mut X);   [trusted std contract]")
@@ -294,9 +294,9 @@ def r11(body):
     return body, count
 
 
-@rule("R23", "core::cmp::min(A, B) / max(A, B) -> vx_min_usize(A, B) / vx_max_usize(A, B)   [trusted std contract at type usize]")
+@rule("R23", "core::cmp::min(A, B) / max(A, B) (also written cmp::min / cmp::max) -> vx_min_usize(A, B) / vx_max_usize(A, B)   [trusted std contract at type usize]")
 def r23(body):
-    return _sub(r"\bcore::cmp::(min|max)\(", lambda m: "vx_%s_usize(" % m.group(1), body)
+    return _sub(r"\b(?:core::)?cmp::(min|max)\(", lambda m: "vx_%s_usize(" % m.group(1), body)
 
 
 @rule("R20", "let X = E.map(|p| BODY).unwrap_or(D); -> let X = match E { Some(p) => BODY, None => D };   [std definition of Option::map + unwrap_or; Verus gives an un-annotated closure no postcondition]")
@@ -540,6 +540,13 @@ def r41(body):
     return _option_closure_method(body, "map", 1, lambda e, a, p, b: "match %s { Some(%s) => Some(%s), None => None }" % (e, p, b))
 
 
+@rule("R42", "format!(\"{X}\").len() / format!(\"{}\", X).len() for a usize X -> vx_decimal_len(X)   [std contract: Display of an unsigned integer prints its decimal digits without sign or leading zeros, so the length is the digit count]")
+def r42(body):
+    body, c1 = _sub(r"\bformat\s*!\s*\(\s*\"\{(\w+)\}\"\s*\)\s*\.\s*len\s*\(\s*\)", lambda m: "vx_decimal_len(%s)" % m.group(1), body)
+    body, c2 = _sub(r"\bformat\s*!\s*\(\s*\"\{\}\"\s*,\s*(\w+)\s*\)\s*\.\s*len\s*\(\s*\)", lambda m: "vx_decimal_len(%s)" % m.group(1), body)
+    return body, c1 + c2
+
+
 @rule("R38", "X.into().into() -> vx_into_literal(X)   [the two generic conversions `Into<Cow<'static, str>>` then `From<Cow<'static, str>> for BorrowedOrArc` are one trusted helper whose body is the original expression; its only contract names the text of the result `lit_text(X)`]")
 def r38(body):
     return _sub(r"\b(\w+)\s*\.\s*into\s*\(\s*\)\s*\.\s*into\s*\(\s*\)", lambda m: "vx_into_literal(%s)" % m.group(1), body)
@@ -697,7 +704,7 @@ def r36(body):
 
 
 # rules that are purely syntactic proof devices are applied only when a unit asks for them
-OPT_IN = {"R9", "R9b", "R15", "R17", "R21", "R22", "R24", "R25", "R25b", "R26", "R28", "R30", "R31", "R32", "R33", "R38", "R39", "R40", "R41"}
+OPT_IN = {"R9", "R9b", "R15", "R17", "R21", "R22", "R24", "R25", "R25b", "R26", "R28", "R30", "R31", "R32", "R33", "R38", "R39", "R40", "R41", "R42"}
 # std-definition rules that may fire in any extracted function without being declared by the unit (they are logged)
 FREE = {"R27", "R29", "R35", "R36"}
 
